@@ -176,13 +176,18 @@ func (k msgServer) RotateValidatorByHalfRRTokenHolder(goCtx context.Context, msg
 	// - gov:network_actor
 	actor, found := k.gk.GetNetworkActorByAddress(ctx, addr)
 	if found {
-		k.gk.DeleteNetworkActor(ctx, actor)
-		for _, role := range actor.Roles {
+		// UnassignRoleFromActor removes the role from a copy of the actor that shares the Roles
+		// backing array and saves that copy: iterate over a private copy of the roles, restore
+		// them afterwards, and delete the old actor record only after the last save
+		roles := append([]uint64{}, actor.Roles...)
+		for _, role := range roles {
 			k.gk.UnassignRoleFromActor(ctx, actor, role)
 		}
+		actor.Roles = roles
 		for _, perm := range actor.Permissions.Whitelist {
 			k.gk.DeleteWhitelistAddressPermKey(ctx, actor, govtypes.PermValue(perm))
 		}
+		k.gk.DeleteNetworkActor(ctx, actor)
 
 		actor.Address = rotatedAddr
 		k.gk.SaveNetworkActor(ctx, actor)
@@ -344,13 +349,18 @@ func (k msgServer) RotateRecoveryAddress(goCtx context.Context, msg *types.MsgRo
 	// - gov:network_actor
 	actor, found := k.gk.GetNetworkActorByAddress(ctx, addr)
 	if found {
-		k.gk.DeleteNetworkActor(ctx, actor)
-		for _, role := range actor.Roles {
+		// UnassignRoleFromActor removes the role from a copy of the actor that shares the Roles
+		// backing array and saves that copy: iterate over a private copy of the roles, restore
+		// them afterwards, and delete the old actor record only after the last save
+		roles := append([]uint64{}, actor.Roles...)
+		for _, role := range roles {
 			k.gk.UnassignRoleFromActor(ctx, actor, role)
 		}
+		actor.Roles = roles
 		for _, perm := range actor.Permissions.Whitelist {
 			k.gk.DeleteWhitelistAddressPermKey(ctx, actor, govtypes.PermValue(perm))
 		}
+		k.gk.DeleteNetworkActor(ctx, actor)
 
 		actor.Address = rotatedAddr
 		k.gk.SaveNetworkActor(ctx, actor)
